@@ -31,7 +31,7 @@ pub const DEF: CheckDef = CheckDef {
     id: "C16",
     run,
     technique: "deviation-bounded exhaustive enumeration of import configurations (all configurations with <= d non-default dimensions out of 13) x exhaustive enumeration of all statements of <= n rows over a configuration-dependent row alphabet x all same-day/next-day date patterns; each case is imported by the real code as a tree (import::import + Txn::to_double_entry) and as text (ImportCmd::run on real files), both compared posting by posting with a reference importer in exact rational arithmetic; for asset accounts with a running-balance column the printed text behind an opening transaction is run through report::process",
-    rule: "case = (configuration, statement). Configuration dimensions (default first): layout {index,label,template '{N}'} x delimiter {',',tab,';'} x skip.head {0,2} x date format {%Y/%m/%d,%Y-%m-%d,%d.%m.%Y} x value columns {amount, credit+debit} x commodity column {absent,present} x running-balance column {present,absent} x note column {absent,present} x charge column {absent,present} x account-level default conversion {none (no secondary_commodity column), rate/secondary_amount/secondary_commodity columns with no commodity.conversion (built-in price_of_secondary/extract), price_of_secondary/compute, price_of_primary/extract, price_of_primary/compute, disabled: true, built-in modes + `commodity: GBP` (a commodity no statement cell shows)} x rewrite-rule conversion on payee ^xfer {no rule, price_of_secondary/compute, price_of_primary/extract, disabled: true, price_of_primary/extract + `commodity: GBP`; the rule names the commodity itself when there is no secondary_commodity column} x account type {asset, liability} x row_order {old_to_new,new_to_old} (row_order is dimension 11, the rule dimension 12); ALL configurations with <= 2 (thorough <= 3) non-default dimensions. Statement: ALL sequences of <= 3 rows (thorough: <= 4 rows for configurations with <= 1 non-default dimension) over the alphabet {credit, debit, zero} + per present column {debit with empty balance cell, debit with a wrong balance; credit/debit in the other currency; credit/debit rows carrying the secondary cells (decided by the account default); credit/debit rows carrying the secondary cells AND matched by the rule (decided by the rule, over the default if any); a matched debit without secondary cells when the rule disables conversion; a matched conversion debit whose secondary-commodity cell is empty when the rule names the commodity; an unmatched debit with cells when there is no default; credit/debit with a charge; other-currency conversion debit; conversion debit with a charge} x EVERY assignment of same-day/next-day to rows 2..n; rows are written newest first when row_order=new_to_old. PLUS date-less lines: for every configuration with <= 1 non-default dimension, and with 2 when one of them is row_order=new_to_old (thorough: every configuration with <= 2), ALL statements over {credit, debit} of the same length bound x all date patterns x ALL placements of one date-less line (all cells empty | only the payee cell filled) at any of the n+1 file positions, or two (empty then payee-only) at any positions g1 <= g2; such lines must produce no transaction and leave every dated row imported, oldest first, with the end-to-end clause unchanged. PLUS nested configuration fragments: for every configuration with <= 1 non-default dimension (thorough <= 2) the same configuration written as 2 documents (ALL 3^4 assignments of {outer, inner, both} to account_type, commodity, account, format; where both set it the outer carries a wrong value) and as 3 documents (all assignments of the 7 non-empty level sets in which <= 1 (thorough <= 2) attribute differs from innermost-only), always preceded by a non-matching document of wrong values, documents listed most specific first x every one-row statement of the alphabet. PLUS rewrite-rule lists: ALL lists of 2 rules over matcher {^xfer, ^nomatch} x conversion {unset, sec/compute, pri/extract, disabled} x account {unset, set} (256) and ALL lists of 3 rules over matcher x conversion (512), with no account default and with the built-in one (thorough: all 7 defaults) x 4 statements of matched / unmatched rows carrying the secondary cells; the conversion in force is that of the last matching rule that sets one. states = cases, transitions = transactions compared with RefImport (tree + text), validated = cases in which every judged value had exactly one acceptable answer",
+    rule: "case = (configuration, statement). Configuration dimensions (default first): layout {index,label,template '{N}'} x delimiter {',',tab,';'} x skip.head {0,2} x date format {%Y/%m/%d,%Y-%m-%d,%d.%m.%Y} x value columns {amount, credit+debit} x commodity column {absent,present} x running-balance column {present,absent} x note column {absent,present} x charge column {absent,present} x account-level default conversion {none (no secondary_commodity column), rate/secondary_amount/secondary_commodity columns with no commodity.conversion (built-in price_of_secondary/extract), price_of_secondary/compute, price_of_primary/extract, price_of_primary/compute, disabled: true, built-in modes + `commodity: GBP` (a commodity no statement cell shows)} x rewrite-rule conversion on payee ^xfer {no rule, price_of_secondary/compute, price_of_primary/extract, disabled: true, price_of_primary/extract + `commodity: GBP`; the rule names the commodity itself when there is no secondary_commodity column} x account type {asset, liability} x row_order {old_to_new,new_to_old} (row_order is dimension 11, the rule dimension 12); ALL configurations with <= 2 (thorough <= 3) non-default dimensions. Statement: ALL sequences of <= 3 rows (thorough: <= 4 rows for configurations with <= 1 non-default dimension) over the alphabet {credit, debit, zero} + per present column {debit with empty balance cell, debit with a wrong balance; credit/debit in the other currency; credit/debit rows carrying the secondary cells (decided by the account default); credit/debit rows carrying the secondary cells AND matched by the rule (decided by the rule, over the default if any); a matched debit without secondary cells when the rule disables conversion; a matched conversion debit whose secondary-commodity cell is empty when the rule names the commodity; an unmatched debit with cells when there is no default; credit/debit with a charge; other-currency conversion debit; conversion debit with a charge} x EVERY assignment of same-day/next-day to rows 2..n; rows are written newest first when row_order=new_to_old. PLUS date-less lines: for every configuration with <= 1 non-default dimension, and with 2 when one of them is row_order=new_to_old (thorough: every configuration with <= 2), ALL statements over {credit, debit} of the same length bound x all date patterns x ALL placements of one date-less line (all cells empty | only the payee cell filled) at any of the n+1 file positions, or two (empty then payee-only) at any positions g1 <= g2; such lines must produce no transaction and leave every dated row imported, oldest first, with the end-to-end clause unchanged. PLUS nested configuration fragments: for every configuration with <= 1 non-default dimension (thorough <= 2) the same configuration written as 2 documents (ALL 3^4 assignments of {outer, inner, both} to account_type, commodity, account, format; where both set it the outer carries a wrong value) and as 3 documents (all assignments of the 7 non-empty level sets in which <= 1 (thorough <= 2) attribute differs from innermost-only), always preceded by a non-matching document of wrong values, documents listed most specific first x every one-row statement of the alphabet. PLUS rewrite-rule lists: ALL lists of 2 rules over matcher {^xfer, ^nomatch} x conversion {unset, sec/compute, pri/extract, disabled} x account {unset, set} (256) and ALL lists of 3 rules over matcher x conversion (512), with no account default and with the built-in one (thorough: all 7 defaults) x 4 statements of matched / unmatched rows carrying the secondary cells; the conversion in force is that of the last matching rule that sets one. PLUS charge value classes: for every configuration of the main enumeration that has the charge column, ALL statements of <= 2 rows x date patterns over {credit, debit} x charge cell {empty, 2.50, -0.50 (refund), 0.00, -0.00} x {without, with conversion cells (where the columns exist)}; a zero cell is no charge, a negative charge nets the counter-posting like a positive one. states = cases, transitions = transactions compared with RefImport (tree + text), validated = cases in which every judged value had exactly one acceptable answer",
     assumptions: &[
         "okane's ledger parser is trusted to read the printed text back (C05/C15 decide that); report::process is trusted as the book-keeping referee of the end-to-end clause (C01/C02 decide that)",
         "DON'T-CARE: the counter-posting value of a row with a non-zero charge when no statement-supplied secondary amount exists (either 'opposite amount' or 'opposite amount net of the charge' is accepted); existence and rate of the charge posting; the sign of the balance assertion for a liability account; order of postings inside a transaction; payee/account of the counter-posting",
@@ -532,7 +532,10 @@ struct Letter {
     bal: BalCell,
     /// rate and secondary amount (and, if the column exists, secondary commodity) cells are filled
     conv: bool,
+    /// the charge cell is filled ...
     fee: bool,
+    /// ... with: 0 = "2.50", 1 = "-0.50" (a refunded fee / rebate), 2 = "0.00", 3 = "-0.00"
+    feek: u8,
     /// the payee matches the rewrite rule `^xfer`
     rule: bool,
     /// rate and secondary amount filled but the secondary-commodity cell is EMPTY (only the configured commodity exists)
@@ -560,7 +563,7 @@ impl Letter {
             s.push_str("-noccy");
         }
         if self.fee {
-            s.push_str("-fee");
+            s.push_str(["-fee", "-negfee", "-zerofee", "-negzerofee"][self.feek as usize]);
         }
         match self.bal {
             BalCell::Right => {}
@@ -584,7 +587,7 @@ impl Letter {
 }
 
 fn alphabet(cfg: &Cfg) -> Vec<Letter> {
-    let l = |kind| Letter { kind, other: false, bal: BalCell::Right, conv: false, fee: false, rule: false, noccy: false };
+    let l = |kind| Letter { kind, other: false, bal: BalCell::Right, conv: false, fee: false, feek: 0, rule: false, noccy: false };
     let mut v = vec![l(Kind::Credit), l(Kind::Debit), l(Kind::Zero)];
     let has_default = cfg.default_conv().is_some();
     let rule = cfg.rule_conv();
@@ -693,7 +696,11 @@ struct RefRow {
     ccy: String,
     /// the cell value(s)
     amount_cells: Vec<(&'static str, String)>,
+    /// the charge of the row if it is not zero
     fee: Option<Q>,
+    /// the charge cell as printed ("" = empty) and whether it shows a zero
+    fee_cell: String,
+    fee_zero: bool,
     /// (rate cell, secondary amount cell, secondary commodity)
     conv_cells: Option<(String, String, String)>,
     balance_cell: Option<Q>,
@@ -761,7 +768,11 @@ fn ref_import(cfg: &Cfg, letters: &[Letter], same: &[bool]) -> RefStatement {
         };
         // STATEMENT: credit positive, debit negative; an `amount` column negated for a liability account
         let posting = if !cfg.crdr() && cfg.liability() { signed_cell.neg() } else { signed_cell };
-        let fee = if l.fee { Some(Q::parse(FEE)) } else { None };
+        let fee_cell = if l.fee { [FEE, "-0.50", "0.00", "-0.00"][l.feek as usize] } else { "" }.to_string();
+        let fee_zero = l.fee && l.feek >= 2;
+        // a zero charge is no charge; a negative charge (refund, rebate) is a charge like any other: the account
+        // movement `amount` includes it, the counter party sees amount + charge
+        let fee = if l.fee && !fee_zero { Some(Q::parse(&fee_cell)) } else { None };
         // the amount that actually changes hands with the counter-party: the account movement net of the charge
         let net = posting.add(fee.unwrap_or(Q::ZERO));
         let opposite_sign = |m: Q| if posting.signum() > 0 { m.abs().neg() } else { m.abs() };
@@ -866,6 +877,8 @@ fn ref_import(cfg: &Cfg, letters: &[Letter], same: &[bool]) -> RefStatement {
             ccy,
             amount_cells,
             fee,
+            fee_cell,
+            fee_zero,
             conv_cells,
             balance_cell,
             posting,
@@ -934,7 +947,7 @@ fn csv_text(cfg: &Cfg, st: &RefStatement) -> String {
                     "amount" | "credit" | "debit" => r.amount_cells.iter().find(|(k, _)| k == key).map(|(_, v)| v.clone()).unwrap_or_default(),
                     "commodity" => r.ccy.clone(),
                     "note" => format!("memo {}", r.id),
-                    "charge" => r.fee.map(|f| format!("{}", f)).map(|_| FEE.to_string()).unwrap_or_default(),
+                    "charge" => r.fee_cell.clone(),
                     "rate" => r.conv_cells.as_ref().map(|c| c.0.clone()).unwrap_or_default(),
                     "secondary_amount" => r.conv_cells.as_ref().map(|c| c.1.clone()).unwrap_or_default(),
                     "secondary_commodity" => r.conv_cells.as_ref().map(|c| c.2.clone()).unwrap_or_default(),
@@ -1080,7 +1093,8 @@ fn judge(via: &str, cfg: &Cfg, st: &RefStatement, got: &[ObsTxn]) -> Result<(), 
         if others.len() != 1 {
             return Err((format!("{}/counter-posting/count/{}", via, shape), ctx("expected exactly one counter-posting")));
         }
-        if r.fee.is_none() && !fees.is_empty() {
+        // a cell showing zero: okane books no charge posting; one of 0 would be equally right (statement silent)
+        if r.fee.is_none() && !fees.is_empty() && !(r.fee_zero && fees.iter().all(|p| p.amount.as_ref().map(|(v, _)| v.is_zero()).unwrap_or(false))) {
             return Err((format!("{}/charge-posting/unexpected/{}", via, shape), ctx("row has no charge but a charge posting was booked")));
         }
         if g.posts.iter().any(|p| p.odd_cost) {
@@ -1273,6 +1287,12 @@ fn run_case(cfg: &Cfg, _cfg_index: usize, entry: &icfg::ConfigEntry, files: &Fil
         if st.rows.iter().any(|r| r.fee.is_some()) {
             fl.push("charge");
         }
+        if st.rows.iter().any(|r| r.fee.map(|f| f.signum() < 0).unwrap_or(false)) {
+            fl.push("negative-charge");
+        }
+        if st.rows.iter().any(|r| r.fee_zero) {
+            fl.push("zero-charge");
+        }
         if st.rows.iter().any(|r| r.letter.conv) {
             fl.push("conv-row");
         }
@@ -1346,7 +1366,10 @@ fn run_case(cfg: &Cfg, _cfg_index: usize, entry: &icfg::ConfigEntry, files: &Fil
                         Some(r) => {
                             let mut fl: Vec<&str> = vec![];
                             if r.fee.is_some() {
-                                fl.push("charge");
+                                fl.push(if r.fee.unwrap().signum() < 0 { "negative-charge" } else { "charge" });
+                            }
+                            if r.fee_zero {
+                                fl.push("zero-charge");
                             }
                             if r.letter.other {
                                 fl.push("eur");
@@ -1531,7 +1554,7 @@ fn run(ctx: &mut Ctx) {
     // ---- lists of two and three rewrite rules
     let stacks = rule_stacks();
     let mut total_stacked = 0u64;
-    let l0 = Letter { kind: Kind::Debit, other: false, bal: BalCell::Right, conv: true, fee: false, rule: true, noccy: false };
+    let l0 = Letter { kind: Kind::Debit, other: false, bal: BalCell::Right, conv: true, fee: false, feek: 0, rule: true, noccy: false };
     let x_debit = l0;
     let x_credit = Letter { kind: Kind::Credit, ..l0 };
     let cv_debit = Letter { rule: false, ..l0 };
@@ -1551,6 +1574,42 @@ fn run(ctx: &mut Ctx) {
             }
         }
     }
+    // ---- value classes of the charge cell: {empty, positive, negative, zero, negative zero} x {credit, debit} x
+    //      {no conversion cells, conversion cells} on every configuration that has the charge column
+    let mut total_charge = 0u64;
+    let mut charge_configs = 0u64;
+    for base in cfgs.iter().filter(|c| c.fee_col()) {
+        let has_default = base.default_conv().is_some();
+        let mut alpha: Vec<Letter> = vec![];
+        for conv in [false, true] {
+            if conv && !base.conv_cols() {
+                continue;
+            }
+            for kind in [Kind::Credit, Kind::Debit] {
+                for (fee, feek) in [(false, 0u8), (true, 0), (true, 1), (true, 2), (true, 3)] {
+                    alpha.push(Letter { kind, other: false, bal: BalCell::Right, conv, fee, feek, rule: conv && !has_default, noccy: false });
+                }
+            }
+        }
+        let a = alpha.len() as u64;
+        let max_rows = 2u32;
+        let n_stmt: u64 = (0..=max_rows).map(|n| statements_of_len(a, n)).sum();
+        total_charge += n_stmt;
+        charge_configs += 1;
+        let mut loaded = Loaded::new(next_id, base);
+        next_id += 1;
+        for k in 0..n_stmt {
+            if !ctx.next_is_mine() {
+                ctx.skip_cases(1);
+                continue;
+            }
+            let (li, same) = decode_statement(k, a, max_rows);
+            let letters: Vec<Letter> = li.iter().map(|i| alpha[*i]).collect();
+            loaded.statement(ctx, &mut files, &letters, &same, &[]);
+        }
+    }
+    ctx.fact("charge_value_class_configurations", charge_configs);
+    ctx.fact("charge_value_class_config_x_statement", total_charge);
     ctx.fact("configurations", cfgs.len() as u64);
     ctx.fact("max_deviations", d as u64);
     ctx.fact("max_rows", ctx.tier.pick(3u64, 4u64));
